@@ -128,4 +128,48 @@ Proof.
   intros g Hd Ho. destruct (linearizable sched) as (H1 & _ & H3 & _). fold g in H1, H3. split; [apply H1; exact Ho|].
   intros i. specialize (H3 i). destruct (Hd i) as [Ht _]. rewrite Ht, app_nil_r in H3. exact H3.
 Qed.
+
+(** * readers that mutate a cache (lazy directory loading): what a thread sees inside its section is what it would see alone *)
+Section Abs.
+Variable A : Type.
+Variable abs : S -> A.
+(** every section of every program leaves the abstraction unchanged as a whole (loading a directory into the cache does not
+    change the tree), and micro-steps respect the abstraction *)
+Hypothesis sec_pres : forall i sec, In sec (progs i) -> forall s, abs (apply_ms sec s) = abs s.
+Hypothesis step_congr : forall i sec m, In sec (progs i) -> In m sec -> forall s s', abs s = abs s' -> abs (m s) = abs (m s').
+
+Lemma in_secs_of i l sec : In sec (secs_of i l) -> In (i, sec) l.
+Proof.
+  unfold secs_of. intros H. apply in_map_iff in H. destruct H as ((j & sec') & E & H). apply filter_In in H. destruct H as [H Hj].
+  cbn in E, Hj. apply Nat.eqb_eq in Hj. subst. exact H.
+Qed.
+Lemma logged_from_progs g : Inv g -> forall i sec, In (i, sec) (log g) -> In sec (progs i).
+Proof.
+  intros (_ & _ & Hc) i sec H. rewrite <- (Hc i). apply in_or_app. left. unfold secs_of. apply in_map_iff. exists (i, sec). split; [reflexivity|].
+  apply filter_In. split; [exact H|]. cbn. apply Nat.eqb_refl.
+Qed.
+Lemma seq_run_abs l : (forall i sec, In (i, sec) l -> In sec (progs i)) -> forall s, abs (seq_run l s) = abs s.
+Proof.
+  induction l as [|(i, sec) r IH]; intros H s; [reflexivity|]. cbn [seq_run fold_left snd]. fold (seq_run r (apply_ms sec s)).
+  rewrite IH by (intros j sc Hj; apply H; right; exact Hj). apply (sec_pres i); apply H; left; reflexivity.
+Qed.
+Lemma apply_ms_congr i sec done : In sec (progs i) -> (forall m, In m done -> In m sec) -> forall s s', abs s = abs s' -> abs (apply_ms done s) = abs (apply_ms done s').
+Proof.
+  intros Hs. induction done as [|m r IH]; intros Hd s s' E; [exact E|]. cbn [apply_ms fold_left]. fold (apply_ms r (m s)). fold (apply_ms r (m s')).
+  apply IH; [intros x Hx; apply Hd; right; exact Hx|]. apply (step_congr i sec m Hs); [apply Hd; left; reflexivity|exact E].
+Qed.
+
+Theorem sections_see_initial_abstraction sched : let g := run (init progs s0) sched in
+  (owner g = None -> abs (sh g) = abs s0) /\
+  (forall i, owner g = Some i -> exists done ms, cur (ths g i) = Some ms /\ In (done ++ ms) (progs i) /\ abs (sh g) = abs (apply_ms done s0)).
+Proof.
+  intros g. pose proof (run_inv sched _ init_inv) as HI. fold g in HI. destruct (linearizable sched) as (H1 & H2 & _ & _). fold g in H1, H2.
+  pose proof (logged_from_progs g HI) as Hlog. split.
+  - intros Ho. rewrite (H1 Ho). apply seq_run_abs. exact Hlog.
+  - intros i Ho. destruct (H2 i Ho) as (pre & done & ms & El & Ec & Es). exists done, ms. split; [exact Ec|].
+    assert (Hin : In (done ++ ms) (progs i)) by (apply Hlog; rewrite El; apply in_or_app; right; left; reflexivity).
+    split; [exact Hin|]. rewrite Es. apply (apply_ms_congr i (done ++ ms) done Hin); [intros m Hm; apply in_or_app; left; exact Hm|].
+    apply seq_run_abs. intros j sc Hj. apply Hlog. rewrite El. apply in_or_app. left. exact Hj.
+Qed.
+End Abs.
 End Lin.
